@@ -28,6 +28,7 @@ func genC12(r *core.Rand, run int) *MuxScenario {
 	sc.Backends = append([]BackendSpec(nil), c11Backends...)
 	for i := range sc.Backends {
 		sc.Backends[i].Verbose = (run+i)%2 == 1 // two reflection implementations
+		sc.Backends[i].DepsFirst = (run+i)%4 == 3 // ... the second one in either order of its answers' files
 	}
 	// what is already there when the concurrency starts
 	switch r.Intn(4) {
